@@ -195,6 +195,12 @@ def _matrix_texts(libset, cmd):
                 args = args + [(pname, c12._raw(rk))]
             prog = c12._prefix(libset) + [("T", cmd, args)]
             yield "%s.%s<-%s" % (cmd, pname, rk), G.render(G.items_of(prog))[0]
+    # the same argument name written twice (same value / another value), in the LAST command of the file and in one that others follow
+    for pname, val in base:
+        for second in (val, ("int", "7")):
+            dup = list(base) + [(pname, second)]
+            yield "%s.%s twice (last command)" % (cmd, pname), G.render(G.items_of(c12._prefix(libset) + [("T", cmd, dup)]))[0]
+            yield "%s.%s twice (then more commands)" % (cmd, pname), G.render(G.items_of([("T", cmd, dup)] + c12._prefix(libset)))[0]
 
 
 def _token_corruptions(prog, part=None, parts=1):
